@@ -295,6 +295,41 @@ pub fn c09_step(cx: &StepCtx<'_, impl Sized>, info: &InputInfo, st: &mut C09Stat
     if post.members.len() > st.addrs_seen.count_ones() as usize {
         return Err(viol("c09:more-records-than-addresses", format!("{} records but only {} distinct addresses were ever mentioned", post.members.len(), st.addrs_seen.count_ones())));
     }
+    // no record changes without a cause in THIS call's input: a payload that
+    // had to be discarded must not surface later either
+    {
+        let mut allowed: Option<Vec<u8>> = Some(Vec::new()); // None = anything
+        match cx.ev {
+            Ev::Apply(..) => allowed = Some(info.mentioned.iter().map(|(i, _)| i.addr).collect()),
+            Ev::Data(_) => {
+                let processed = match &info.admission {
+                    Some(Admission::Admitted(_)) => info.sender_active,
+                    Some(Admission::AdmittedMalformed) => true,
+                    _ => false,
+                };
+                if processed {
+                    allowed = Some(info.mentioned.iter().map(|(i, _)| i.addr).collect());
+                }
+            }
+            Ev::Timer(TimerKey::ProbeRandomMember(_)) => allowed = None,
+            Ev::Timer(TimerKey::ChangeSuspectToDown { member, .. }) => allowed = Some(vec![member.addr]),
+            Ev::Timer(TimerKey::RemoveDown(m)) => allowed = Some(vec![m.addr]),
+            _ => {}
+        }
+        if let Some(al) = allowed {
+            let mut addrs: Vec<u8> = pre.members.iter().chain(post.members.iter()).map(|m| m.id().addr).collect();
+            addrs.sort_unstable();
+            addrs.dedup();
+            for a in addrs {
+                if pre.record_at(a) != post.record_at(a) && !al.contains(&a) {
+                    return Err(viol(
+                        "c09:membership-changed-without-cause",
+                        format!("the record for address {} changed ({:?} -> {:?}) although this call's input does not mention it", a, pre.record_at(a).map(show_member), post.record_at(a).map(show_member)),
+                    ));
+                }
+            }
+        }
+    }
     // identities only move forward
     let forgotten: Option<Id> = match cx.ev {
         Ev::Timer(TimerKey::RemoveDown(i)) => Some(*i),
@@ -493,6 +528,7 @@ pub fn c10_step(
     let mut dr: Vec<&N<Id>> = cx.out.notes().filter(|n| matches!(n, N::Defunct | N::Rejoin(_))).collect();
     dr.reverse();
     let dr_cell = std::cell::RefCell::new(dr);
+    let unanswered = std::cell::Cell::new(0u32);
     let mut on_death = |cur: &mut (Id, u16), must_exceed: &mut Option<u16>| {
         match dr_cell.borrow_mut().pop() {
             Some(N::Rejoin(x)) => {
@@ -504,7 +540,11 @@ pub fn c10_step(
                 deaths.push((cur.0, true));
                 *must_exceed = None;
             }
-            None => {}
+            None => {
+                // learned that the current identity is dead, yet neither
+                // renewed nor became defunct
+                unanswered.set(unanswered.get() + 1);
+            }
         }
     };
     let inactive_sender = info.is_data && info.admitted.is_some() && !info.sender_active;
@@ -542,6 +582,12 @@ pub fn c10_step(
     }
     if matches!(cx.ev, Ev::Leave) {
         on_death(&mut cur, &mut must_exceed);
+    }
+    if unanswered.get() > 0 && cx.out.res.is_ok() {
+        return Err(viol(
+            "c10:carries-on-under-dead-identity",
+            format!("the input told the instance that its current identity {} is Down (or cannot be defended) {} time(s) without a Rejoin or Defunct: it carries on under a dead identity", own_pre.0.show(), unanswered.get()),
+        ));
     }
     let id_changed = own_post.0 != own_pre.0;
     let reset_call = id_changed || (matches!(cx.ev, Ev::Reuse) && cx.out.res.is_ok());
